@@ -32,7 +32,7 @@ WEIGHTS = {"undo": 3, "redo": 3, "paint": 5, "swap": 2.5}
 
 
 def plan(tier, seed):
-    return common.session_plan(PROP, tier, seed, quick=400, thorough=8000)
+    return common.session_plan(PROP, tier, seed, quick=2000, thorough=30000)
 
 
 def run_shard(spec):
